@@ -8,6 +8,12 @@ use solana_sdk::pubkey::Pubkey;
 
 pub const PYTH_OWNER: Pubkey = solana_sdk::pubkey!("rec5EKMGg6MxZYaMdyBfgwp4d5rB9T1VQH5pJv5LtFJ");
 pub const SWB_OWNER: Pubkey = solana_sdk::pubkey!("SBondMDrcV3K4kxZR1HNVT7osZxAHVHgYXL5Ze1oMUv");
+pub const KAMINO: Pubkey = solana_sdk::pubkey!("KLend2g3cP87fffoy8q1mQqGKjrxjC8boSyAYavgmjD");
+/// slot the reference model judges venue staleness against (set by the driver from the Clock it wrote)
+pub static REF_SLOT: std::sync::atomic::AtomicU64 = std::sync::atomic::AtomicU64::new(0);
+pub fn set_slot(s: u64) {
+    REF_SLOT.store(s, std::sync::atomic::Ordering::Relaxed);
+}
 pub const SPL_TOKEN: Pubkey = solana_sdk::pubkey!("TokenkegQfeZyiNwAJbNbGKPFXCWuBvf9Ss623VQ5DA");
 pub const STAKE_PROG: Pubkey = solana_sdk::pubkey!("Stake11111111111111111111111111111111111111");
 pub const SECONDS_PER_YEAR: i128 = 31_536_000;
@@ -270,6 +276,13 @@ fn pyth_decode(data: &[u8]) -> Option<(bool, i64, u64, i32, i64, i64, u64)> {
 }
 
 fn pyth_px(o: &OracleIn, cfg_key: &Pubkey, now: i64, max_age: u64, max_conf: &Rat, scale: Option<(&Rat, &Rat)>) -> Result<RefPx, PxErr> {
+    pyth_px_x(o, cfg_key, now, max_age, max_conf, scale, false, &zero())
+}
+
+/// `scale_conf`: the confidence fields are multiplied by the exchange rate too (venue banks);
+/// `rate_err`: absolute error bound of the exchange rate the program computes in fixed point.
+#[allow(clippy::too_many_arguments)]
+fn pyth_px_x(o: &OracleIn, cfg_key: &Pubkey, now: i64, max_age: u64, max_conf: &Rat, scale: Option<(&Rat, &Rat)>, scale_conf: bool, rate_err: &Rat) -> Result<RefPx, PxErr> {
     if &o.key != cfg_key {
         return Err(PxErr::WrongKey);
     }
@@ -294,13 +307,15 @@ fn pyth_px(o: &OracleIn, cfg_key: &Pubkey, now: i64, max_age: u64, max_conf: &Ra
     };
     Ok(RefPx {
         spot: ri(price as i128) * &sc * &mul,
-        spot_kc: ru(conf as u128) * &sc * &k * if scale.is_some() { one() } else { one() },
+        spot_kc: ru(conf as u128) * &sc * &k * if scale_conf { mul.clone() } else { one() },
         ema: ri(ema as i128) * &sc * &mul,
-        ema_kc: ru(ema_conf as u128) * &sc * &k,
+        ema_kc: ru(ema_conf as u128) * &sc * &k * if scale_conf { mul.clone() } else { one() },
         max_conf: max_conf.clone(),
         // conversions truncate once; the constants 2.12 and 0.05 are themselves truncated to the
         // grid, so k*conf carries conf*ulp and the 5% cap carries price*ulp
-        e: ulp() * ri(4) + (ru(conf.max(ema_conf) as u128) * &sc + ri(3)) * ulp() + (ru(price.unsigned_abs().max(ema.unsigned_abs()) as u128) * &sc * &abs(&mul) + one()) * ulp() * ri(2) + extra_e,
+        e: ulp() * ri(4) + (ru(conf.max(ema_conf) as u128) * &sc + ri(3)) * ulp() + (ru(price.unsigned_abs().max(ema.unsigned_abs()) as u128) * &sc * &abs(&mul) + one()) * ulp() * ri(2) + extra_e
+            + (ru(price.unsigned_abs().max(ema.unsigned_abs()) as u128) + if scale_conf { ru(conf.max(ema_conf) as u128) * &k } else { zero() }) * &sc * rate_err
+            + if scale_conf { &sc * &k } else { zero() },
         fixed: false,
     })
 }
@@ -395,6 +410,50 @@ pub fn ref_price(b: &Bank, ors: &[OracleIn], now: i64) -> Result<RefPx, PxErr> {
             // confidence is NOT scaled by the program for staked banks (only price fields are)
             let _ = &mut px;
             Ok(px)
+        }
+        OracleSetup::KaminoPythPush => {
+            use kamino_mocks::state::MinimalReserve as R;
+            if ors.len() != 2 {
+                return Err(PxErr::WrongCount);
+            }
+            if ors[1].key != cfg.oracle_keys[1] {
+                return Err(PxErr::WrongKey);
+            }
+            let n = std::mem::size_of::<R>();
+            let d = ors[1].data;
+            if ors[1].owner != KAMINO || d.len() < 8 + n || d[..8] != kamino_mocks::state::RESERVE_DISCRIMINATOR {
+                return Err(PxErr::BadData);
+            }
+            let u64_at = |o: usize| u64::from_le_bytes(d[8 + o..8 + o + 8].try_into().unwrap());
+            let u128_at = |o: usize| u128::from_le_bytes(d[8 + o..8 + o + 16].try_into().unwrap());
+            // a reserve that was not refreshed in the current slot is stale
+            if u64_at(std::mem::offset_of!(R, slot)) < REF_SLOT.load(std::sync::atomic::Ordering::Relaxed) {
+                return Err(PxErr::Stale);
+            }
+            let sf = |o: usize| Rat::new(num_bigint::BigInt::from(u128_at(o)), num_bigint::BigInt::from(1u128 << 60));
+            let liq = ru(u64_at(std::mem::offset_of!(R, available_amount)) as u128) + sf(std::mem::offset_of!(R, borrowed_amount_sf))
+                - sf(std::mem::offset_of!(R, accumulated_protocol_fees_sf))
+                - sf(std::mem::offset_of!(R, accumulated_referrer_fees_sf))
+                - sf(std::mem::offset_of!(R, pending_referrer_fees_sf));
+            let col = ru(u64_at(std::mem::offset_of!(R, mint_total_supply)) as u128);
+            let dec = u64_at(std::mem::offset_of!(R, mint_decimals));
+            if dec > 23 {
+                return Err(PxErr::Unsupported);
+            }
+            let scale = pow10(dec as u32);
+            // the program divides both supplies by 10^decimals on the 2^-48 grid before taking the
+            // ratio; a collateral supply below one grid step means "no adjustment"
+            let (l, c) = (&liq / &scale, &col / &scale);
+            if c < ulp() {
+                return pyth_px(&ors[0], &cfg.oracle_keys[0], now, max_age(false), &max_conf, None);
+            }
+            if liq.is_negative() {
+                return Err(PxErr::NegativeOrZeroSupply);
+            }
+            // |rate_prog - l/c| <= max(l*u/(c*(c-u)), u/c) + 5u  (four truncated sf inputs, one division)
+            let u = ulp();
+            let rate_err = if c > &u * ri(2) { rmax(&(&l * &u * ri(5) / (&c * (&c - &u))), &(&u * ri(5) / &c)) + &u * ri(2) } else { &l / &c + one() };
+            pyth_px_x(&ors[0], &cfg.oracle_keys[0], now, max_age(false), &max_conf, Some((&liq, &col)), true, &rate_err)
         }
         _ => Err(PxErr::Unsupported),
     }
